@@ -691,7 +691,7 @@ def gen_names():
     for pat, rhs in split_arms(mbody, "match arms"):
         arm = f"{pat} => {rhs}"
         if pat == "_":
-            if not re.match(r"Err\s*\(", rhs):
+            if not re.match(r"(?:\{\s*)?(?:return\s+)?Err\s*\(", rhs):
                 raise ExtractError("ChronoboxBankName: `_` arm is not an error")
             wild = True
             continue
@@ -699,6 +699,14 @@ def gen_names():
             raise ExtractError("ChronoboxBankName: arm after `_`")
         mp = re.fullmatch(r'"([^"\\]*)"', pat)
         mr = re.fullmatch(r'Ok\s*\(\s*Self\s*\{\s*board_id\s*:\s*crate\s*::\s*chronobox\s*::\s*BoardId\s*::\s*try_from\s*\(\s*"([^"\\]*)"\s*\)\s*\.\s*unwrap\s*\(\s*\)\s*,?\s*\}\s*\)', rhs)
+        if mp and not mr:
+            # second accepted shape: the match only selects the board name (`"CBF1" => "cb01"`, early
+            # return on `_`), and the BoardId is built once afterwards from the selected name
+            mr = re.fullmatch(r'"([^"\\]*)"', rhs)
+            if mr and not (re.search(r"\blet\s+(\w+)\s*=\s*match\s+name\s*\{", b)
+                           and re.search(r"BoardId\s*::\s*try_from\s*\(\s*\w+\s*\)\s*\.\s*unwrap\s*\(\s*\)", b)
+                           and re.search(r"Ok\s*\(\s*Self\s*\{\s*board_id\s*,?\s*\}\s*\)", b)):
+                mr = None
         if not mp or not mr:
             raise ExtractError(f"ChronoboxBankName: unsupported arm `{arm}`")
         cb_arms.append((mp.group(1), mr.group(1)))
